@@ -1276,6 +1276,7 @@ func main() {
 	}
 
 	runRewoundStream(cfg, sum, vhlib.NewRng(cfg.Seed*7919+606), tables)
+	runMergedStream(cfg, sum, vhlib.NewRng(cfg.Seed*7919+607), tables)
 	runChild("planned", cfg, sum, 3)
 	runChild("missingcol=eval_missing_column", cfg, sum, 1)
 	runChild("missingcol=sort_missing_column", cfg, sum, 1)
